@@ -9,6 +9,7 @@ reported; compressed / repacked copies receive the same violations.
 """
 import itertools
 import os
+import pathlib
 import shutil
 
 import h5py
@@ -163,6 +164,31 @@ def run_checker(path):
     return check_dataset(path)
 
 
+def cli_exit_code(path):
+    """Exit status of `dclab-verify-dataset <path>` (output discarded)."""
+    import contextlib
+    import io
+    from dclab.cli import task_verify_dataset as tv
+    try:
+        with contextlib.redirect_stdout(io.StringIO()):
+            tv.verify_dataset(path_in=pathlib.Path(path))
+    except SystemExit as e:
+        return e.code
+    return None
+
+
+def exit_code_problem(path, viol, aler):
+    """The command-line tool must classify the file the way the checker
+    does: 0 ok, 1 alerts, 2 violations, 3 both."""
+    want = (2 if viol else 0) + (1 if aler else 0)
+    got = cli_exit_code(path)
+    if got != want:
+        return (f"dclab-verify-dataset exits with {got}, the checker reports "
+                f"{len(viol)} violations / {len(aler)} alerts (expected "
+                f"{want})")
+    return None
+
+
 def _clean_case(args):
     route, seed, scratch = args
     import dclab
@@ -231,6 +257,12 @@ def _clean_case(args):
                     f"{route}: {t.name} produced by dclab from complete "
                     f"metadata is reported with violations {viol}",
                     {"route": route}))
+            prob = exit_code_problem(t, viol, aler)
+            if prob:
+                out.append(violation(
+                    "dclab.cli.task_verify_dataset:verify_dataset",
+                    "wrong-exit-code", case, f"{route}: {prob}",
+                    {"route": route}))
     except BaseException as e:
         out.append(violation(CK, "exception", case,
                              f"{route}: {type(e).__name__}: {e}",
@@ -274,6 +306,13 @@ def _corrupt_case(args):
                          dangling_link="dangling external link" in names,
                          what=names[0] if len(names) == 1 else "pair")))
                 continue
+            if len(combo) == 1:
+                prob = exit_code_problem(p, viol, aler)
+                if prob:
+                    out.append(violation(
+                        "dclab.cli.task_verify_dataset:verify_dataset",
+                        "wrong-exit-code", case, f"{names}: {prob}",
+                        dict(tags, what=names[0])))
             for i in combo:
                 if not any(menu[i][3] in v for v in viol):
                     out.append(violation(
